@@ -115,7 +115,16 @@ lines.append("Each sub-agent saw only the text of one property and a scratch "
              "returned to realistic pull requests: 30-100 lines over at least "
              "two modules (an interface change and the adaptation of its "
              "callers) with one integration mistake; all 20 were caught as "
-             "the checks stood. %d changes in total: %d rejected as outside the "
+             "the checks stood. Round 21 (S21-*) repeated round 19 with the "
+             "list enlarged again; 10 were caught as the checks stood, 2 by "
+             "the check of another property, 1 is outside the domain (bit "
+             "counts spelled as floats are refused, nothing is misrouted), 7 "
+             "became generator dimensions. Seed-dependent detections found "
+             "by re-running the stored changes at another seed (S5/S7/S13-"
+             "C16: header slope exactly 1 with an intercept; S17-C14: scales "
+             "sharing the bit triple) were made systematic (C16 sub-check "
+             "scaling_grid, C14 shared-bits pyramids). "
+             "%d changes in total: %d rejected as outside the "
              "quantified domain (marked), %d not detected (marked, a "
              "documented limit), %d detected; "
              "the 'caught by' column says when a check had to be "
